@@ -6,6 +6,7 @@ import (
 	"context"
 	"fmt"
 	"sort"
+	"strings"
 	"time"
 
 	"github.com/gopcua/opcua"
@@ -24,8 +25,12 @@ type c32Op struct {
 }
 
 type c32Run struct {
-	Sessions int     `json:"sessions"`
-	Ops      []c32Op `json:"ops"`
+	// FastDelete: the next operation follows a DeleteSubscriptions of one's own
+	// subscription at once, while the server is still tearing the subscription down
+	FastDelete   bool    `json:"no_pause_after_own_delete"`
+	SlowTeardown bool    `json:"slow_subscription_teardown"`
+	Sessions     int     `json:"sessions"`
+	Ops          []c32Op `json:"ops"`
 }
 
 func (r *c32Run) Sample() any { return r }
@@ -34,6 +39,15 @@ func (r *c32Run) Setup(s *sim.Sim) {
 	p := s.Plan
 	s.DrawPolicy()
 	r.Sessions = 2 + p.Intn(2)
+	r.FastDelete = p.Bool()
+	if r.SlowTeardown = p.Bool(); r.SlowTeardown {
+		// the server's per-subscription goroutine is held at the locks it takes on its way out
+		s.SlowPermille, s.SlowMax = 400, 12
+		s.SlowDurs = []time.Duration{time.Millisecond, 5 * time.Millisecond, 15 * time.Millisecond}
+		s.SlowWhere = func(label, where string) bool {
+			return strings.Contains(where, "server.(*Subscription).run") || strings.Contains(where, "server.(*SubscriptionService).DeleteSubscription")
+		}
+	}
 	n := 10 + p.Intn(50)
 	kinds := []string{"createsub", "createsub", "deletesub", "createitems", "createitems", "deleteitems", "setmode"}
 	for i := 0; i < n; i++ {
@@ -129,6 +143,38 @@ func (r *c32Run) Main(s *sim.Sim) {
 		return out
 	}
 	settle := func() { time.Sleep(20 * time.Millisecond) } // background deletions
+	// modes the model expects for live items (own SetMonitoringMode calls change them)
+	modeOf := map[uint32]ua.MonitoringMode{}
+	// victimsIntact: whatever a foreign or unknown-id operation did, everything the
+	// model holds live must still be on the server with the monitoring mode its owner
+	// gave it. (Comparing the server's maps before and after the call would also see
+	// the teardown of subscriptions their owners deleted a moment ago.)
+	victimsIntact := func(oi int, what string) bool {
+		haveS := map[uint32]bool{}
+		for _, id := range srvSubs() {
+			haveS[id] = true
+		}
+		for id, owner := range liveSubs() {
+			if !haveS[id] {
+				s.Fail("C32", "foreign-op-effect", what+"-subscription-gone", "op %d (%s): subscription %d of session %d is live in the model but gone on the server (server has %v)", oi, what, id, owner, srvSubs())
+				return false
+			}
+		}
+		e.srv.MonitoredItemService.Mu.Lock()
+		defer e.srv.MonitoredItemService.Mu.Unlock()
+		for id, owner := range liveItems() {
+			it := e.srv.MonitoredItemService.Items[id]
+			if it == nil {
+				s.Fail("C32", "foreign-op-effect", what+"-item-gone", "op %d (%s): monitored item %d of session %d is live in the model but gone on the server", oi, what, id, owner)
+				return false
+			}
+			if want, ok := modeOf[id]; ok && it.Mode != want {
+				s.Fail("C32", "foreign-op-effect", what+"-mode-changed", "op %d (%s): monitored item %d of session %d has monitoring mode %v, its owner set %v", oi, what, id, owner, it.Mode, want)
+				return false
+			}
+		}
+		return true
+	}
 
 	// pick an id of the requested class; owner = -1 if nobody owns it
 	pickSub := func(me int, op c32Op) (uint32, string) {
@@ -142,7 +188,7 @@ func (r *c32Run) Main(s *sim.Sim) {
 			if len(ss.deadSubs) > 0 {
 				id := ss.deadSubs[op.Idx%len(ss.deadSubs)]
 				if _, live := liveSubs()[id]; !live {
-					return id, "unknown"
+					return id, "own-deleted"
 				}
 			}
 		case 2:
@@ -175,7 +221,7 @@ func (r *c32Run) Main(s *sim.Sim) {
 				if len(ss.subs) > 0 {
 					sub = ss.subs[0]
 				}
-				return sub, ss.deadItem[op.Idx%len(ss.deadItem)], "unknown"
+				return sub, ss.deadItem[op.Idx%len(ss.deadItem)], "own-deleted"
 			}
 		case 2:
 			for k := 1; k < len(sess); k++ {
@@ -237,7 +283,9 @@ func (r *c32Run) Main(s *sim.Sim) {
 			subsBefore, itemsBefore := srvSubs(), srvItems()
 			res, err := send(ss.c, &ua.DeleteSubscriptionsRequest{SubscriptionIDs: []uint32{id}})
 			dr, ok := res.(*ua.DeleteSubscriptionsResponse)
-			settle()
+			if !(class == "own" && r.FastDelete) {
+				settle()
+			}
 			switch class {
 			case "own":
 				if err != nil || !ok || len(dr.Results) != 1 || dr.Results[0] != ua.StatusOK {
@@ -257,12 +305,14 @@ func (r *c32Run) Main(s *sim.Sim) {
 				s.Nontrivial()
 			default:
 				s.Probe("deletesub-" + class)
-				if err == nil && ok && len(dr.Results) == 1 && !isBad(dr.Results[0]) {
+				// (an id the same session deleted a moment ago may still be registered while the
+				// server tears the subscription down: either answer is right then)
+				if err == nil && ok && len(dr.Results) == 1 && !isBad(dr.Results[0]) && !(class == "own-deleted" && (r.FastDelete || r.SlowTeardown)) {
 					s.Fail("C32", "foreign-op-accepted", "deletesub-"+class+"-good", "op %d: session %d deleted %s subscription %d: status %v", oi, me, class, id, dr.Results[0])
 					return
 				}
-				if fmt.Sprint(srvSubs()) != fmt.Sprint(subsBefore) || fmt.Sprint(srvItems()) != fmt.Sprint(itemsBefore) {
-					s.Fail("C32", "foreign-op-effect", "deletesub-"+class+"-effect", "op %d: session %d DeleteSubscriptions(%s id %d) changed the server: subs %v -> %v, items %v -> %v", oi, me, class, id, subsBefore, srvSubs(), itemsBefore, srvItems())
+				_, _ = subsBefore, itemsBefore
+				if !victimsIntact(oi, "deletesub-"+class) {
 					return
 				}
 			}
@@ -306,7 +356,18 @@ func (r *c32Run) Main(s *sim.Sim) {
 						}
 					}
 				}
-				if good || fmt.Sprint(srvItems()) != fmt.Sprint(itemsBefore) {
+				// (items of subscriptions deleted a moment ago may still be disappearing: only new ids count)
+				grew := false
+				was := map[uint32]bool{}
+				for _, x := range itemsBefore {
+					was[x] = true
+				}
+				for _, x := range srvItems() {
+					if !was[x] {
+						grew = true
+					}
+				}
+				if (good || grew) && !(class == "own-deleted" && (r.FastDelete || r.SlowTeardown)) {
 					s.Fail("C32", "foreign-op-accepted", "createitems-"+class, "op %d: session %d created items on %s subscription %d: err=%v items %v -> %v", oi, me, class, id, err, itemsBefore, srvItems())
 					return
 				}
@@ -352,20 +413,19 @@ func (r *c32Run) Main(s *sim.Sim) {
 						}
 					}
 				}
+				if op.Kind == "setmode" {
+					modeOf[item] = ua.MonitoringModeSampling
+				}
 				s.Probe(op.Kind + "-own")
 				s.Nontrivial()
 			} else {
 				s.Probe(op.Kind + "-" + class)
-				if err == nil && okResp && !isBad(st) {
+				if err == nil && okResp && !isBad(st) && !(class == "own-deleted" && (r.FastDelete || r.SlowTeardown)) {
 					s.Fail("C32", "foreign-op-accepted", op.Kind+"-"+class+"-good", "op %d: session %d %s on %s item %d returned %v", oi, me, op.Kind, class, item, st)
 					return
 				}
-				if fmt.Sprint(srvItemModes()) != fmt.Sprint(modesBefore) {
-					s.Fail("C32", "foreign-op-effect", op.Kind+"-"+class+"-mode-effect", "op %d: session %d %s on %s item %d changed monitoring modes on the server: %v -> %v", oi, me, op.Kind, class, item, modesBefore, srvItemModes())
-					return
-				}
-				if fmt.Sprint(srvItems()) != fmt.Sprint(itemsBefore) {
-					s.Fail("C32", "foreign-op-effect", op.Kind+"-"+class+"-effect", "op %d: session %d %s on %s item %d changed the server's items %v -> %v", oi, me, op.Kind, class, item, itemsBefore, srvItems())
+				_, _ = modesBefore, itemsBefore
+				if !victimsIntact(oi, op.Kind+"-"+class) {
 					return
 				}
 			}
